@@ -55,6 +55,19 @@ theorem xlsx_sheet_table_roundtrip (rows : List (List XCell)) (b : Bounds) (hc :
     obtain ⟨k, _, rfl⟩ := hcm
     exact xVal_noBs rows hbs _ _
 
+/-- the same for cell values of ANY bytes, backslashes included (`normCell .xlsx c` is
+`trim (nlToSpace c)`) -/
+theorem xlsx_sheet_table_roundtrip_any (rows : List (List XCell)) (b : Bounds) (hc : b.minCol ≤ b.maxCol) :
+    gfmTable (xTable rows b) = some ((xGrid rows b).map (List.map (normCell .xlsx))) := by
+  rw [xTable_eq_render]
+  have hn : 1 ≤ (b.maxCol - b.minCol + 1).toNat := by omega
+  apply Tabula.C15.table_roundtrip_any .xlsx (b.maxCol - b.minCol + 1).toNat hn
+  · simp [xGrid]
+  · intro r hr
+    simp only [xGrid, List.mem_map, List.mem_range] at hr
+    obtain ⟨i, _, rfl⟩ := hr
+    simp [xRowVals]
+
 /-- every line of the inline table has the header's number of cells -/
 theorem xlsx_sheet_rows_rectangular (rows : List (List XCell)) (b : Bounds) :
     ∀ r ∈ xGrid rows b, r.length = (b.maxCol - b.minCol + 1).toNat := by
